@@ -94,8 +94,8 @@ def Format.tinyBelow (f : Format) : Rat := 2 ^ f.emin * (1 - 2 ^ (-((f.p : Int) 
 
 /-- The range error of a conversion of the exact value `x` (ISO C 2011 §7.22.1.3 ¶10; glibc):
     overflow, or underflow in the sense of IEEE §7.5 — the result is tiny and inexact.  The result
-    is inexact exactly when `x` is not itself a number of the format (`Proofs/Ieee.lean`,
-    `roundsTo_exact_iff`). -/
+    is inexact exactly when `x` is not itself a number of the format (`rounding_exact_iff` in
+    `Properties/C16.lean`). -/
 def RangeError (f : Format) (x : Rat) : Prop :=
   f.Overflows x ∨ (x.abs < f.tinyBelow ∧ ¬ f.Finite x)
 
